@@ -52,6 +52,7 @@ type Spec struct {
 	Funcs  []FuncSpec  `json:"funcs"`
 	Calls  []CallSpec  `json:"calls"`
 	Lits   []LitSpec   `json:"lits"`
+	Kernels []KernelSpec `json:"kernels"`
 }
 
 var roots = map[string]string{}
@@ -391,6 +392,9 @@ func genSection(section string, spec Spec, out string, d *strings.Builder) {
 		}
 		fmt.Fprintf(&c, "/-- calls in %s/%s among %v, in source order -/\ndef %s : List String := [%s]\n", cs.Dir, cs.Func, cs.Callees, cs.Lean, strings.Join(q, ", "))
 	}
+	for _, ks := range spec.Kernels {
+		genKernel(loadPkg(ks.Root, ks.Dir), ks, &c)
+	}
 	for _, ls := range spec.Lits {
 		p := loadPkg(ls.Root, ls.Dir)
 		fd := findFunc(p, ls.Func)
@@ -423,7 +427,11 @@ func genSection(section string, spec Spec, out string, d *strings.Builder) {
 		fmt.Fprintf(&c, "/-- literals and operators of %s/%s in AST pre-order -/\ndef %s : List String := [%s]\n", ls.Dir, ls.Func, ls.Lean, strings.Join(q, ", "))
 	}
 	c.WriteString("\nend Ssv.Gen\n")
-	writeIfChanged(filepath.Join(out, camel(section)+".lean"), c.String())
+	content := c.String()
+	if len(spec.Kernels) > 0 {
+		content = "import Ssv.Common.GoInt\n" + content
+	}
+	writeIfChanged(filepath.Join(out, camel(section)+".lean"), content)
 	keys := []string{}
 	for k := range srcDump {
 		keys = append(keys, k)
